@@ -84,7 +84,7 @@ def regenerate_facts():
             with open(dst, "w") as f:
                 f.write(new)
     for name in os.listdir(gen):
-        if not os.path.exists(os.path.join(tmp, name)):
+        if not os.path.exists(os.path.join(tmp, name)) and name != "Tables.lean":  # Tables.lean: regenerate_tables
             os.remove(os.path.join(gen, name))
     return True, out
 
@@ -241,6 +241,45 @@ def build_harness(race=False):
         if rc != 0:
             return False, "\n".join(outs)
     return True, "\n".join(outs)
+
+
+TABLES_FALLBACK = """/- FALLBACK written by ./check: the tables could not be produced by executing the working tree (%s). -/
+namespace Cdi.Generated
+def isLetterRanges : List (Nat × Nat) := []
+def isDigitRanges : List (Nat × Nat) := []
+def isAlphaNumericRanges : List (Nat × Nat) := []
+def deviceTypesAccepted : List (List UInt8) := []
+def permissionBytes : List (Nat × Nat) := []
+def tableErrors : List String := ["tables not produced"]
+end Cdi.Generated
+"""
+
+
+def regenerate_tables(harness_ok):
+    """Total tables by execution (harness/cmd/corr/tables.go): runs the freshly built harness, which links the
+    working tree, on every element of the finite domains and rewrites Generated/Tables.lean when it changed.
+    Returns None or an error string (a fallback file is written so that the Lean build names the obligations)."""
+    dst = os.path.join(LEAN, "CdiModel", "Generated", "Tables.lean")
+    err = None
+    new = None
+    if harness_ok:
+        try:
+            rc, out, _ = run([os.path.join(BUILD, "corr"), "child", "tables"], timeout=600)
+            if rc == 0 and "end Cdi.Generated" in out:
+                new = out
+            else:
+                err = "corr child tables failed (rc=%s): %s" % (rc, out[-500:])
+        except subprocess.TimeoutExpired:
+            err = "corr child tables timed out"
+    else:
+        err = "harness does not build"
+    if new is None:
+        new = TABLES_FALLBACK % err
+    old = open(dst).read() if os.path.exists(dst) else None
+    if new != old:
+        with open(dst, "w") as f:
+            f.write(new)
+    return err
 
 
 def build_race():
